@@ -444,19 +444,19 @@ def run_field(md, ftype, nsteps, seed, tid, minimiser="newton"):
 
 
 # ----------------------------------------------------------------------------- planning
-def materials(rng):
-    # every third model is very stiff (wave speeds ~1e6..1e7): its natural periods, and hence the time steps
-    # dt = dt_spec / omega of the replayed behaviours, fall well below 1e-6
-    stiff = 10.0 ** rng.choice([0, 0, 12])
+def materials(rng, idx=None):
+    # every third model (deterministically: the 2nd, 5th, ... of the plan) is very stiff (wave speeds ~1e6..1e7): its natural
+    # periods, and hence the time steps dt = dt_spec / omega of the replayed behaviours, fall well below 1e-6
+    stiff = 10.0 ** (rng.choice([0, 0, 12]) if idx is None else (12 if idx % 3 == 1 else 0))
     return dict(E=round(10 ** rng.uniform(0, 2), 6) * stiff, nu=round(rng.uniform(0.0, 0.4), 6), rho=round(10 ** rng.uniform(-0.3, 0.7), 6))
 
 
 def plan_models(tier, rng):
     meshes = MESHES_QUICK + (MESHES_MORE if tier == "thorough" else [])
     out = []
-    for m in meshes:
+    for i, m in enumerate(meshes):
         mm = dict(m)
-        mm.update(materials(rng))
+        mm.update(materials(rng, i))
         out.append(mm)
     return out
 
